@@ -201,11 +201,15 @@ func Panics(f func()) (p bool) {
 				panic(e)
 			}
 			p = true
+			LastPanic = fmt.Sprint(e)
 		}
 	}()
 	f()
 	return false
 }
+
+// LastPanic is the value of the last panic swallowed by Panics (native runs only).
+var LastPanic string
 
 // RunReplay is called by the generated native test driver.
 func RunReplay(m map[string]func()) {
@@ -241,5 +245,8 @@ func RunReplay(m map[string]func()) {
 	}
 	runtime.ReadMemStats(&ms1)
 	fmt.Printf("ZZALLOC %d\n", ms1.TotalAlloc-ms0.TotalAlloc)
+	if LastPanic != "" {
+		fmt.Printf("ZZLASTPANIC %s\n", LastPanic)
+	}
 	fmt.Printf("ZZRESULT %s\n", res)
 }
